@@ -117,7 +117,11 @@ int vf_main(void) {
 #endif
 
     /* the call under test */
+#ifdef VF_R2
+    uint32_t rate = VF_R2;               /* concrete second rate: lets the period-vs-rate test below fold */
+#else
     uint32_t rate = nondet_uint();
+#endif
     uint64_t burst = nondet_u64();
     VF_ASSUME(rate <= 1000000000u);
     r = m_mod_set_tokenbucket(mod, rate, burst);
@@ -144,10 +148,15 @@ int vf_main(void) {
         VF_CHECK(r == 0, "rate 0 succeeds");
         VF_CHECK(refill == 0 && cur == 0, "rate 0 leaves no refill timer");
         VF_CHECK(mod->tb.tokens == UINT64_MAX && mod->tb.burst == UINT64_MAX, "rate 0 removes the limit");
+#ifndef VF_R2
         VF_WITNESS("rate0");
+#endif
     } else {
         VF_CHECK(mod->tb.burst == burst && mod->tb.tokens <= burst, "the new burst is in force, tokens <= burst");
         if (burst >= 1) VF_CHECK(refill == 1, "exactly one refill timer is registered: tokens are replenished");
+#ifdef VF_R2
+        if (r == 0) VF_CHECK(cur * (uint64_t)rate >= BILLION && cur <= BILLION, "the refill period in force belongs to the NEW rate: no more than rate refills per second");
+#endif
         VF_WITNESS("configured");
     }
     VF_CHECK(user_present == 1, "the user's timer is still registered");
